@@ -12,7 +12,11 @@ for line in open(sys.argv[1]):
     mid, wall, prop, tier, rc, rest = m.groups()
     how = "not detected"
     if int(rc) == 1:
-        if "not a behaviour of the specification" in rest:
+        if "memory order weaker than required" in rest:
+            how = "memory orders extracted from the recorded execution are weaker than the model requires (x86-TSO re-check)"
+        elif rest.startswith("KNOWN-FINDING") or prop == "C08":
+            how = "IOShim / IOWait: a model-generated call sequence or a validated execution disagrees with the model (a VIOLATION line besides the listed known finding)"
+        elif "not a behaviour of the specification" in rest:
             ev = re.search(r'"k": "(\w+)", "a": "([\w.]+)", "fn": "(\w+)"', rest)
             how = "trace rejected by the model" + (f" at `{ev.group(1)} {ev.group(2)}` in `{ev.group(3)}`" if ev else "")
         elif "invariant" in rest:
